@@ -247,7 +247,7 @@ static std::string stepLine(State& s, const std::vector<std::string>& w)
         if (w[2] == "seq" && w.size() == 3) return "seq " + std::to_string(slot.enc.getSequenceCounter());
         if (w[2] == "ids" && w.size() == 3) return "ids " + std::to_string(slot.enc.getDeviceId()) + " " + std::to_string(unsigned(slot.enc.getStreamId()));
         // `encodell`: the same call on the real encoder; the driver answers it with the low-level model (EncoderLL.lean)
-        if ((w[2] == "encode" || w[2] == "encodep" || w[2] == "encode1" || w[2] == "encodell") && w.size() >= 5)
+        if ((w[2] == "encode" || w[2] == "encodep" || w[2] == "encode1" || w[2] == "encodell" || w[2] == "encodeacc") && w.size() >= 5)
         {
             DataContext ctx{static_cast<size_t>(nat(w[3])), static_cast<size_t>(nat(w[4]))};
             if (!(ctx.maxBytesPerMessage >= 25 && ctx.minBytesPerMessage <= ctx.maxBytesPerMessage)) return "bad-ctx";
@@ -270,6 +270,16 @@ static std::string stepLine(State& s, const std::vector<std::string>& w)
                 // the single-packet overload
                 if (batch.size() != 1) return "bad-batch";
                 slot.frames = slot.enc.encode(batch[0], ctx);
+            }
+            else if (w[2] == "encodeacc")
+            {
+                // the frames of this call are appended to those of the earlier calls (one encoder stream over several calls)
+                auto fr = slot.enc.encode(batch.begin(), batch.end(), ctx);
+                std::ostringstream o;
+                o << "frames " << fr.size();
+                for (auto& f : fr) o << " " << toHex(f.data(), f.size());
+                slot.frames.insert(slot.frames.end(), fr.begin(), fr.end());
+                return o.str();
             }
             else
                 slot.frames = slot.enc.encode(batch.begin(), batch.end(), ctx);
